@@ -499,3 +499,379 @@ theorem prepB_spec (S : Settings) : ∀ rem, BSpec (prepB S rem) := by
                   simp [Conf, unparseB, c, hlen]
 
 end Radix.TxHash
+
+/-! ## Extension lemmas: every reader ignores what follows the bytes it consumed
+
+`Ext f` : if `f bs` succeeds leaving `rest`, then `f (bs ++ x)` succeeds with the same result leaving
+`rest ++ x`. Used for the trailing-bytes theorem. -/
+
+namespace Radix.TxHash
+open Radix.Sbor Radix.Generated
+
+theorem consumed_ext (a r x : Bytes) : consumed (a ++ r ++ x) (r ++ x) = consumed (a ++ r) r := by
+  have : a ++ r ++ x = a ++ (r ++ x) := by simp
+  rw [this, consumed_append, consumed_append]
+
+theorem readValueKind_ext (bs rest x : Bytes) (k : MVK) (h : readValueKind manifestKinds bs = .ok (k, rest)) :
+    readValueKind manifestKinds (bs ++ x) = .ok (k, rest ++ x) := by
+  have := readValueKind_ok manifestKinds manifestKinds_lawful _ _ _ h
+  subst this
+  exact readValueKind_toU8 manifestKinds manifestKinds_lawful k (rest ++ x)
+
+theorem readSize_ext (bs rest x : Bytes) (n : Nat) (h : readSize bs = .ok (n, rest)) :
+    readSize (bs ++ x) = .ok (n, rest ++ x) := by
+  obtain ⟨hn, rfl⟩ := readSize_canonical _ _ _ h
+  simpa using readSize_sizeBytes n (rest ++ x) hn
+
+theorem readSlice_ext (n : Nat) (bs a rest x : Bytes) (h : readSlice n bs = .ok (a, rest)) :
+    readSlice n (bs ++ x) = .ok (a, rest ++ x) := by
+  obtain ⟨rfl, hl⟩ := readSlice_ok _ _ _ _ h
+  simpa using readSlice_append n a (rest ++ x) hl
+
+theorem decBody_ext (rem : Nat) (vk : MVK) (bs rest x : Bytes) (v : Value ManifestKind ManifestCustom)
+    (h : decBody manifest D rem vk bs = .ok (v, rest)) :
+    decBody manifest D rem vk (bs ++ x) = .ok (v, rest ++ x) ∧ ∃ a, bs = a ++ rest := by
+  obtain ⟨hk, hwf, body, hbody, rfl⟩ := encBody_decBody manifest ManifestCustom.WF manifest_lawful D D rem vk bs v rest h
+  have := decBody_encBody manifest ManifestCustom.WF manifest_lawful D D rem v body (rest ++ x) hwf hbody
+  rw [hk] at this
+  exact ⟨by simpa using this, body, rfl⟩
+
+theorem readKindExpect_ext (vk : MVK) (bs rest x : Bytes) (h : readKindExpect vk bs = .ok rest) :
+    readKindExpect vk (bs ++ x) = .ok (rest ++ x) := by
+  unfold readKindExpect at h ⊢
+  split at h
+  · simp at h
+  · rename_i k r hk
+    rw [readValueKind_ext _ _ x _ hk]
+    split at h
+    · rename_i hkv
+      simp at h
+      subst h
+      simp [hkv]
+    · simp at h
+
+theorem readSizeExpect_ext (n : Nat) (bs rest x : Bytes) (h : readSizeExpect n bs = .ok rest) :
+    readSizeExpect n (bs ++ x) = .ok (rest ++ x) := by
+  unfold readSizeExpect at h ⊢
+  split at h
+  · simp at h
+  · rename_i m r hm
+    rw [readSize_ext _ _ x _ hm]
+    split at h
+    · rename_i hmn
+      simp at h
+      subst h
+      simp [hmn]
+    · simp at h
+
+/-- extension property of a preparation function -/
+def Ext (f : Bytes → PR) : Prop :=
+  ∀ bs p rest x, f bs = .ok (p, rest) → f (bs ++ x) = .ok (p, rest ++ x)
+
+theorem prepBody_ext (rem : Nat) (vk : MVK) : Ext (prepBody rem vk) := by
+  intro bs p rest x h
+  unfold prepBody at h ⊢
+  split at h
+  · simp at h
+  · rename_i v r hv
+    simp at h
+    obtain ⟨rfl, rfl⟩ := h
+    obtain ⟨h1, a, rfl⟩ := decBody_ext rem vk bs r x v hv
+    rw [h1]
+    simp only [consumed_ext]
+
+theorem prepFull_ext (rem : Nat) : Ext (prepFull rem) := by
+  intro bs p rest x h
+  unfold prepFull at h ⊢
+  split at h
+  · simp at h
+  · rename_i v r hv
+    simp at h
+    obtain ⟨rfl, rfl⟩ := h
+    simp only [decValue, decField] at hv ⊢
+    split at hv
+    · simp at hv
+    · rename_i vk bs' hvk
+      have hb := readValueKind_ok manifest.kc manifest_lawful.kinds _ _ _ hvk
+      obtain ⟨h1, a, ha⟩ := decBody_ext rem vk bs' r x v hv
+      subst hb
+      have hk : readValueKind manifest.kc (VK.toU8 manifest.kc vk :: bs' ++ x) = .ok (vk, bs' ++ x) := by
+        simpa using readValueKind_toU8 manifest.kc manifest_lawful.kinds vk (bs' ++ x)
+      rw [hk]
+      simp only [h1]
+      subst ha
+      have e1 : VK.toU8 manifest.kc vk :: (a ++ r) ++ x = (VK.toU8 manifest.kc vk :: a) ++ r ++ x := by simp
+      have e2 : VK.toU8 manifest.kc vk :: (a ++ r) = (VK.toU8 manifest.kc vk :: a) ++ r := by simp
+      rw [e1, consumed_ext, ← e2]
+
+theorem decBytesBody_ext (rem : Nat) (bs sl rest x : Bytes) (h : decBytesBody rem bs = .ok (sl, rest)) :
+    decBytesBody rem (bs ++ x) = .ok (sl, rest ++ x) := by
+  unfold decBytesBody at h ⊢
+  split at h
+  · simp at h
+  · split at h
+    · simp at h
+    · rename_i ek bs0 hk
+      rw [readValueKind_ext _ _ x _ hk]
+      split at h
+      · simp at h
+      · rename_i hek
+        simp only [hek, if_false]
+        split at h
+        · simp at h
+        · rename_i n bs1 hn
+          rw [readSize_ext _ _ x _ hn]
+          split at h
+          · simp at h
+          · rename_i a r hs
+            simp at h
+            obtain ⟨rfl, rfl⟩ := h
+            simp only [readSlice_ext _ _ _ _ x hs]
+
+theorem decHashBody_ext (rem : Nat) (bs sl rest x : Bytes) (h : decHashBody rem bs = .ok (sl, rest)) :
+    decHashBody rem (bs ++ x) = .ok (sl, rest ++ x) ∧ ∃ a, bs = a ++ rest := by
+  have hb := (decHashBody_ok rem bs sl rest h).2
+  unfold decHashBody at h ⊢
+  split at h
+  · simp at h
+  · split at h
+    · simp at h
+    · rename_i ek bs0 hk
+      rw [readValueKind_ext _ _ x _ hk]
+      split at h
+      · simp at h
+      · rename_i hek
+        simp only [hek, if_false]
+        split at h
+        · simp at h
+        · rename_i n bs1 hn
+          rw [readSize_ext _ _ x _ hn]
+          split at h
+          · simp at h
+          · rename_i hnn
+            simp only [hnn, if_false]
+            split at h
+            · simp at h
+            · rename_i hz
+              simp only [hz, if_false]
+              split at h
+              · simp at h
+              · rename_i a r hs
+                simp at h
+                obtain ⟨rfl, rfl⟩ := h
+                simp only [readSlice_ext _ _ _ _ x hs]
+                exact ⟨trivial, u8Kind :: (sizeBytes hashLen ++ a), by rw [hb]; simp⟩
+
+theorem prepBlob_ext (rem : Nat) : Ext (prepBlob rem) := by
+  intro bs p rest x h
+  unfold prepBlob at h ⊢
+  split at h
+  · simp at h
+  · rename_i inner r hd
+    rw [decBytesBody_ext _ _ _ _ x hd]
+    split at h
+    · simp at h
+    · simp at h
+      obtain ⟨rfl, rfl⟩ := h
+      simp_all
+
+theorem prepRawHash_ext (rem : Nat) : Ext (prepRawHash rem) := by
+  intro bs p rest x h
+  unfold prepRawHash at h ⊢
+  split at h
+  · simp at h
+  · rename_i hh r hd
+    obtain ⟨h1, a, rfl⟩ := decHashBody_ext _ _ _ _ x hd
+    rw [h1]
+    simp at h
+    obtain ⟨rfl, rfl⟩ := h
+    simp only [consumed_ext]
+
+theorem prepFields_ext (pv : Sch → Bytes → PR) (hpv : ∀ s, Ext (pv s)) :
+    ∀ (fs : List Sch) (bs : Bytes) (e t : Nat) (ts : List HTree) (e' t' : Nat) (rest x : Bytes),
+      prepFields pv fs bs e t = .ok (ts, e', t', rest) →
+      prepFields pv fs (bs ++ x) e t = .ok (ts, e', t', rest ++ x) := by
+  intro fs
+  induction fs with
+  | nil =>
+    intro bs e t ts e' t' rest x h
+    simp [prepFields] at h ⊢
+    obtain ⟨rfl, rfl, rfl, rfl⟩ := h
+    simp
+  | cons f fs ih =>
+    intro bs e t ts e' t' rest x h
+    simp only [prepFields] at h ⊢
+    split at h
+    · simp at h
+    · rename_i p bs' hp
+      rw [hpv f _ _ _ x hp]
+      try simp only
+      split at h
+      · simp at h
+      · rename_i eff' he
+        try rw [he]
+        try simp only
+        split at h
+        · simp at h
+        · rename_i tot' ht
+          try rw [ht]
+          try simp only
+          split at h
+          · simp at h
+          · rename_i ts0 e0 t0 r0 hrec
+            rw [ih _ _ _ _ _ _ _ x hrec]
+            simp at h ⊢
+            obtain ⟨rfl, rfl, rfl, rfl⟩ := h
+            simp
+
+theorem prepElems_ext (pb : Bytes → PR) (hpb : Ext pb) :
+    ∀ (n : Nat) (bs : Bytes) (e t : Nat) (ts : List HTree) (e' t' : Nat) (rest x : Bytes),
+      prepElems pb n bs e t = .ok (ts, e', t', rest) →
+      prepElems pb n (bs ++ x) e t = .ok (ts, e', t', rest ++ x) := by
+  intro n
+  induction n with
+  | zero =>
+    intro bs e t ts e' t' rest x h
+    simp [prepElems] at h ⊢
+    obtain ⟨rfl, rfl, rfl, rfl⟩ := h
+    simp
+  | succ n ih =>
+    intro bs e t ts e' t' rest x h
+    simp only [prepElems] at h ⊢
+    split at h
+    · simp at h
+    · rename_i p bs' hp
+      rw [hpb _ _ _ x hp]
+      try simp only
+      split at h
+      · simp at h
+      · rename_i eff' he
+        try rw [he]
+        try simp only
+        split at h
+        · simp at h
+        · rename_i tot' ht
+          try rw [ht]
+          try simp only
+          split at h
+          · simp at h
+          · rename_i ts0 e0 t0 r0 hrec
+            rw [ih _ _ _ _ _ _ _ x hrec]
+            simp at h ⊢
+            obtain ⟨rfl, rfl, rfl, rfl⟩ := h
+            simp
+
+theorem prepVWith_ext (pb : Sch → Bytes → PR) (rem : Nat) (hpb : ∀ s, Ext (pb s)) :
+    ∀ s, Ext (prepVWith pb rem s) := by
+  intro s bs p rest x h
+  unfold prepVWith at h ⊢
+  split
+  · exact prepFull_ext rem _ _ _ x h
+  · rename_i hs
+    simp only at h
+    split at h
+    · simp at h
+    · rename_i bs' hk
+      rw [readKindExpect_ext _ _ _ x hk]
+      try simp only
+      split at h
+      · simp at h
+      · rename_i p0 r0 hp
+        rw [hpb _ _ _ _ x hp]
+        try simp only
+        split at h
+        · simp at h
+        · rename_i eff he
+          try rw [he]
+          simp at h ⊢
+          obtain ⟨rfl, rfl⟩ := h
+          simp
+
+theorem tupleRest_ext (pv : Sch → Bytes → PR) (hpv : ∀ s, Ext (pv s)) (pfx : Bytes) (fields : List Sch) :
+    Ext (tupleRest pv pfx fields) := by
+  intro bs p rest x h
+  unfold tupleRest at h ⊢
+  split at h
+  · simp at h
+  · rename_i bs1 hs
+    rw [readSizeExpect_ext _ _ _ x hs]
+    try simp only
+    split at h
+    · simp at h
+    · rename_i ts e t r hf
+      rw [prepFields_ext pv hpv _ _ _ _ _ _ _ _ x hf]
+      try simp only
+      split at h
+      · simp at h
+      · rename_i tot he
+        try rw [he]
+        simp at h ⊢
+        obtain ⟨rfl, rfl⟩ := h
+        simp
+
+theorem prepB_ext (S : Settings) : ∀ rem s, Ext (prepB S rem s) := by
+  intro rem
+  induction rem with
+  | zero =>
+    intro s bs p rest x h
+    cases s with
+    | full => simp [prepB] at h
+    | body vk => simp only [prepB] at h ⊢; exact prepBody_ext _ _ _ _ _ x h
+    | blob => simp only [prepB] at h ⊢; exact prepBlob_ext _ _ _ _ x h
+    | rawHash => simp only [prepB] at h ⊢; exact prepRawHash_ext _ _ _ _ x h
+    | payload d fs => simp [prepB] at h
+    | core fs =>
+      simp only [prepB] at h
+      split at h <;> simp at h
+    | arr a b c d e => simp [prepB] at h
+  | succ rem ih =>
+    intro s bs p rest x h
+    have hv : ∀ s, Ext (prepVWith (prepB S rem) rem s) := prepVWith_ext _ _ ih
+    cases s with
+    | full => simp [prepB] at h
+    | body vk => simp only [prepB] at h ⊢; exact prepBody_ext _ _ _ _ _ x h
+    | blob => simp only [prepB] at h ⊢; exact prepBlob_ext _ _ _ _ x h
+    | rawHash => simp only [prepB] at h ⊢; exact prepRawHash_ext _ _ _ _ x h
+    | payload d fs => simp only [prepB] at h ⊢; exact tupleRest_ext _ hv _ _ _ _ _ x h
+    | core fs =>
+      simp only [prepB] at h ⊢
+      split at h
+      · simp at h
+      · rename_i hv2
+        simp only [hv2, if_false]
+        exact tupleRest_ext _ hv _ _ _ _ _ x h
+    | arr fv vt lim el nd =>
+      simp only [prepB] at h ⊢
+      split at h
+      · simp at h
+      · rename_i bs0 hk
+        rw [readKindExpect_ext _ _ _ x hk]
+        try simp only
+        split at h
+        · simp at h
+        · rename_i n bs1 hn
+          rw [readSize_ext _ _ x _ hn]
+          try simp only
+          split at h
+          · simp at h
+          · rename_i hlim
+            simp only [hlim, if_false]
+            split at h
+            · simp at h
+            · rename_i ts e t r hel
+              rw [prepElems_ext _ (ih el) _ _ _ _ _ _ _ _ x hel]
+              try simp only
+              split at h
+              · simp at h
+              · rename_i tot he
+                try rw [he]
+                try simp only
+                split at h
+                · simp at h
+                · rename_i hdup
+                  simp only [hdup, if_false]
+                  simp at h ⊢
+                  obtain ⟨rfl, rfl⟩ := h
+                  simp
+
+end Radix.TxHash
